@@ -122,10 +122,11 @@ def run(chk):
     chk.extra["trace_events"] = len(idx)
     compose.run(chk, "optional")
     compose.run_members(chk, "optional")
+    compose.run_variants(chk, "optional")
 
 
 def replay(chk, rec):
-    if "compose" in rec.get("case", {}):
+    if any(k in rec.get("case", {}) for k in ("compose", "members", "variants")):
         return compose.replay(chk, rec, "optional")
     c = rec["case"]
     events, meta = typecases.run_trees(chk, [(c["tree"], c["default_attr"], c["bare"])], configs=(c.get("config", "base"),))
